@@ -124,6 +124,11 @@ def run(chk, prog):
                         "buffers, descriptors, pipes or queues shared between tunnels let bytes of one connection appear in another" % (s["path"], ty[:100]))
     chk.floor("O1", ns, 1, "statics enumerated")
 
+    # DELIM: a line / NUL-terminated field of a handshake is accepted only when its delimiter was read (same rule as C12's S2): a head
+    # line cut by the length limit and taken for complete shifts the end of the head, and the rest of the head is relayed as payload
+    from . import c12 as _c12
+    _c12.rule_s2(chk, prog, "DELIM")
+
     # WIRE: encoder/decoder layout agreement of the SOCKS messages
     shared.rule_wire(chk, prog)
 
